@@ -225,6 +225,9 @@ func checkC01(c *core.Ctx) {
 				// a built-in next to the user's chords (not one whose symbol or name the forest redefines)
 				for {
 					ch.Symbol = model.RandSymbol(r)
+					if f.redefSixth && (ch.Symbol == "6" || ch.Symbol == "m6" || ch.Symbol == "Sixth") {
+						continue
+					}
 					if ch.Symbol != "add9" && ch.Symbol != "AddedNinth" && (f.takenOver == "" || ch.Symbol != theory.ChordNames[f.takenOver]) {
 						break
 					}
@@ -233,6 +236,10 @@ func checkC01(c *core.Ctx) {
 				ch.Symbol, ch.Semis = uc.Name, f.semis[uc.Name]
 			default:
 				ch.Symbol, ch.Semis = uc.Display, f.semis[uc.Name]
+				if uc.Name == f.nameAlias {
+					// this display symbol is spelled like the name of a built-in: the name wins
+					ch.Semis = nil
+				}
 			}
 			in.Chord = ch
 			p.Inst = append(p.Inst, in)
